@@ -125,7 +125,7 @@ def Script.size (s : Script) : Nat :=
 inductive Ev
   | arrive (h : Option Nat)
   | dispatch (s h p : Nat)                 -- connect() issued for slot s to host h, proc p
-  | fin (s status : Nat) (started trunc : Bool)
+  | fin (s status : Nat) (started trunc hostless : Bool)   -- hostless: gw_reconnect() found no host
   | wait (s : Nat)
   | err (s : Nat)
   | fdev (mask : Nat)
@@ -585,13 +585,15 @@ def subrequest (w : World) (s : Nat) : Rc × World :=
 /-! ### the request around the handler: http_response_handler loop, request reset -/
 
 /-- response handed to the client (or connection reset); gw_handle_request_reset -/
+def finEv (s : Nat) (c : Ctx) : Ev :=
+  .fin s (if c.aux.status = 0 then 200 else c.aux.status) c.aux.started
+    (c.aux.started && !c.aux.handler) (c.link.hctx && c.link.host.isNone)
+
 def finish (w : World) (s : Nat) (aborted : Bool) : World :=
   match w.slot s with
   | none => w
   | some c =>
-    let w1 := if aborted then w
-      else w.emit (.fin s (if c.aux.status = 0 then 200 else c.aux.status) c.aux.started
-                     (c.aux.started && !c.aux.handler))
+    let w1 := if aborted then w else w.emit (finEv s c)
     let w2 := backendClose w1 s
     { w2 with slot := fun i => if i = s then none else w2.slot i }
 
@@ -751,7 +753,7 @@ def hostName (i : Nat) (kind : Char) : Bytes :=
 
 /-- gw_set_defaults_backend(): host->gw_hash = gw_hash(name) ^ port -/
 def hostHash (i : Nat) (kind : Char) : UInt32 :=
-  djb (hostName i kind) 5381 ^^^ (if kind = 'u' then 0 else (9000 + i).toUInt32)
+  djb (hostName i kind) 5381 ^^^ (if kind = 'u' then 0 else (9000 + 37 * i).toUInt32)
 
 def specHost (i : Nat) (sp : Option HostSpec) : Host :=
   match sp with
